@@ -31,7 +31,12 @@ try:
     # our checks against the patched scratch tree (VERIF_REPO), /repo itself is not touched
     checks = (a.checks.split(',') if a.checks else [a.prop])
     caught = {}
+    sys.path.insert(0, os.path.dirname(os.path.abspath(__file__)))
+    from cleanrc import clean_rc
     for c in checks:
+        crc = clean_rc(c, os.environ.get('KEEPMUT_HOME', '/verif'))
+        if crc != 0:
+            print(sid, 'REFUSED: check %s exits %d on the unchanged tree; its verdict on a seeded tree would mean nothing' % (c, crc)); sys.exit(4)
         o = sh('cd %s && VERIF_REPO=%s ./check %s --tier quick' % (os.environ.get('KEEPMUT_HOME', '/verif'), wt, c))
         sigs = [l.strip()[4:] for l in o.stdout.split('\n') if l.strip().startswith('sig=')]
         caught[c] = dict(exit=o.returncode, violations=o.stdout.count('\nVIOLATION') + (1 if o.stdout.startswith('VIOLATION') else 0), first_signatures=sigs[:3])
